@@ -534,6 +534,23 @@ impl Prop for C15 {
         for f in ["8/8/4k3/8/8/3K4/8/8 w - - 0 1", "7k/8/8/8/8/8/8/KB6 w - - 0 1", "8/8/8/p1p1p1p1/P1P1P1P1/8/4k3/K7 w - - 0 1"] {
             cases.push(BoundsCase::SelfPlay { fen: f.to_string() });
         }
+        // a root searched as deep as it goes (bare kings, a locked fortress: the depth ceiling is reached in a fraction
+        // of a second), then the same root at the end of a 396-ply record of shuffles - where far less depth fits
+        // under the per-ply state stack than the table remembers - searched again in three ways
+        for f in ["8/8/4k3/8/8/3K4/8/8 w - - 0 1", "4k3/8/8/8/1p1p1p1p/pPpPpPpP/P1P1P1P1/4K3 w - - 0 1", "7k/8/8/8/8/8/8/KB6 w - - 0 1"] {
+            let Ok(p) = Pos::from_fen(f) else { continue };
+            let Some(cycle) = shuffle_cycles(&p).into_iter().next() else { continue };
+            let mut record: Vec<String> = Vec::new();
+            while record.len() + 4 <= 396 {
+                record.extend(cycle.iter().map(|m| m.uci()));
+            }
+            for second in ["go wtime 60000 btime 60000 winc 0 binc 0", "go depth 250", "go infinite"] {
+                cases.push(BoundsCase::Script {
+                    lines: vec![format!("position fen {}", f), "go depth 255".into(), "wait".into(), format!("position fen {} moves {}", f, record.join(" ")), second.into()],
+                    run_ms: 2500,
+                });
+            }
+        }
         for (i, case) in cases.into_iter().enumerate() {
             if !ctx.owns(i as u64) {
                 continue;
